@@ -2,6 +2,7 @@ package main
 
 import (
 	"fmt"
+	"strings"
 )
 
 var _ = fmt.Sprint
@@ -284,6 +285,7 @@ func (g *gen) genAztec() {
 			az(g.azPlain(c+1), p, 0)
 		}
 	}
+	g.azStuffSweep()
 	// the 64-data-word limit of compact symbols
 	for _, n := range []int{101, 102, 103} { // 102 letters = 510 bits = 64 words of 8 bits
 		az(g.azPlain(n), 0, 0)
@@ -307,5 +309,76 @@ func (g *gen) genAztec() {
 		az(g.azPlain(40), p, 0)
 		az(g.azPlain(40), p, -1)
 		az(g.azPlain(40), p, 1)
+	}
+}
+
+// azStuffSweep: explicit layer requests with payloads that bit stuffing lengthens by 12-20 % (runs of 0xff / 0x00
+// bytes, "O " = 10000 00001), every length from well below to just above the point where the *unstuffed* stream would
+// still fit. In this band the stuffed stream decides: too large for the request, more than 64 words in a compact
+// symbol, fewer check words than the percentage asks for. (Seeds s03, s06: the fit test / the 64-word test made on
+// the unstuffed length.)
+func (g *gen) azStuffSweep() {
+	var layers []int
+	for l := -4; l <= 32; l++ {
+		if l == 0 {
+			continue
+		}
+		if g.thorough() || l <= 5 {
+			layers = append(layers, l)
+		}
+	}
+	if !g.thorough() {
+		layers = append(layers, 6+g.intn(9), 15+g.intn(18))
+	}
+	pcts := []int{0, 5, 10, 14, 23, 33}
+	if !g.thorough() {
+		pcts = []int{0, 10, 33, []int{5, 14, 23}[g.intn(3)]}
+	}
+	for _, l := range layers {
+		compact, n := l < 0, l
+		if compact {
+			n = -l
+		}
+		for _, p := range pcts {
+			for kind := 0; kind < 3; kind++ {
+				bits := func(k int) int {
+					switch {
+					case kind == 2:
+						return 5 * k
+					case k <= 31:
+						return 10 + 8*k
+					default:
+						return 21 + 8*k
+					}
+				}
+				mk := func(k int) string {
+					switch kind {
+					case 0:
+						return strings.Repeat("\xff", k)
+					case 1:
+						return strings.Repeat("\x00", k)
+					}
+					return strings.Repeat("O ", k/2) + "O"[:k%2]
+				}
+				c := 0
+				for azFits(bits(c+1), p, n, compact) {
+					c++
+				}
+				lo, step := c*3/4, 1
+				if c > 120 {
+					step = c / 40
+					if g.thorough() {
+						step = c / 120
+					}
+				}
+				for k := lo; k <= c+1; k += step {
+					if k >= 1 {
+						g.emit("aztec %s %d %d", hx(mk(k)), p, l)
+					}
+				}
+				g.emit("aztec %s %d %d", hx(mk(c)), p, l)
+				g.emit("aztec %s %d %d", hx(mk(c+1)), p, l)
+			}
+		}
 	}
 }
